@@ -97,18 +97,151 @@ package stree
 //@
 //@ spec sameNode(y *node[T]) bool := y.left == old(y.left) && y.right == old(y.right) && y.X == old(y.X) && y.keys == old(y.keys) && y.desc == old(y.desc) && y.cnt == old(y.cnt) && y.rep == old(y.rep)
 //@
-// rewrite (treeToVine + vineToTree) rebuilds a subtree in place: same nodes, same keys, again a search tree. Its
-// contract is assumed here and checked by a bounded stand-in (the rotations need an in-order sequence argument).
+// chainOK(top, sp, m): sp[0..m) is the chain of nodes reached from top by right links (sp[0] == top, the last one has
+// no right child), with strictly decreasing node counts (so pairwise different).
+//@ pred chainOK(top *node[T], sp imap[*node[T]], m int) := m >= 0 && (m == 0 <==> top == nil) && (m > 0 ==> sp[0] == top && sp[m - 1].right == nil)
+//@+     && (forall k int :: {sp[k]} 0 <= k && k < m ==> sp[k] != nil && allocated(sp[k]) && inD(top, sp[k]))
+//@+     && (forall a int, b int :: {sp[a], sp[b]} 0 <= a && b == a + 1 && b < m ==> sp[a].right == sp[b])
+//@+     && (forall a int, b int :: {sp[a], sp[b]} 0 <= a && a < b && b < m ==> sp[a].cnt > sp[b].cnt && inD(sp[a].right, sp[b]))
+//@
+// treeToVine: right rotations turn the subtree into a right-leaning chain (every left link nil) of the same nodes. Each
+// rotation re-derives the ghost fields of the two nodes it moves; every other node keeps its sets (the rotated pair
+// spans the same nodes and keys as before). vs lists the chain from the top (vn nodes, linked by right).
+//@ func treeToVine
+//@   ghost cmp func(T, T) int
+//@   ghostret vs imap[*node[T]], vn int
+//@   requires [C01] treeOK(n, cmp)
+//@   ensures  [C01] nil: (n == nil) == (result == nil)
+//@   ensures  [C01] shape: treeOK(result, cmp) && cntOf(result) == old(cntOf(n))
+//@   ensures  [C01] keys: forall k int :: {inK(result, k)} inK(result, k) <==> old(inK(n, k))
+//@   ensures  [C01] desc: forall y ref :: {inD(result, y)} inD(result, y) <==> old(inD(n, y))
+//@   ensures  [C01] reps: forall k int :: {result.rep[k]} inK(result, k) ==> result.rep[k] == old(n.rep[k])
+//@   ensures  [C01] vine: forall y *node[T] :: {inD(result, y)} inD(result, y) ==> y.left == nil
+//@   ensures  [C01] chain: chainOK(result, vs, vn) && vn == cntOf(result)
+//@   ensures  [C01] values: forall y *node[T] :: {y.X} old(allocated(y)) ==> y.X == old(y.X)
+//@   ensures  [C01] frame: forall y *node[T] :: {y.left} {y.right} {y.X} {y.keys} {y.desc} {y.cnt} {y.rep} old(allocated(y)) && !old(inD(n, y)) ==> sameNode(y)
+//@   modifies every(n.left), every(n.right), every(n.keys), every(n.desc), every(n.cnt), every(n.rep)
+//@   at entry: ghost D0 = ite(n == nil, emptyset(n.desc), n.desc)
+//@   at entry: ghost K0 = ite(n == nil, emptyset(n.keys), n.keys)
+//@   loop 1: invariant [C01] stub: stub != nil && fresh(stub) && !(stub in D0) && stub.left == nil && (cur == stub || (cur in D0 && cur.left == nil))
+//@   loop 1: invariant [C01] tree: treeOK(stub.right, cmp) && cntOf(stub.right) == old(cntOf(n)) && ((n == nil) == (stub.right == nil))
+//@   loop 1: invariant [C01] sets: (forall y ref :: {inD(stub.right, y)} {y in D0} inD(stub.right, y) <==> y in D0) && (forall k int :: {inK(stub.right, k)} {k in K0} inK(stub.right, k) <==> k in K0) && (forall k int :: {stub.right.rep[k]} k in K0 ==> stub.right.rep[k] == old(n.rep[k]))
+//@   loop 1: invariant [C01] done: forall y *node[T] :: {y in D0} y in D0 && !inD(cur.right, y) ==> y.left == nil
+//@   loop 1: invariant [C01] below: cur != stub ==> (forall y ref :: {inD(cur.right, y)} inD(cur.right, y) ==> y in cur.desc && y != cur)
+//@   loop 1: invariant [C01] values: forall y *node[T] :: {y.X} old(allocated(y)) ==> y.X == old(y.X)
+//@   loop 1: invariant [C01] frame: forall y *node[T] :: {y.left} {y.right} {y.X} {y.keys} {y.desc} {y.cnt} {y.rep} old(allocated(y)) && !(y in D0) ==> sameNode(y)
+//@   at entry: ghost vn = 0
+//@   loop 1: invariant [C01] chain: vn >= 0 && (vn == 0 <==> cur == stub) && (vn > 0 ==> vs[0] == stub.right && vs[vn - 1] == cur)
+//@   loop 1: invariant [C01] links: (forall k int :: {vs[k]} 0 <= k && k < vn ==> vs[k] != nil && vs[k] in D0 && vs[k].left == nil && !inD(cur.right, vs[k]) && vs[k].cnt == cntOf(stub.right) - k) && (forall a int, b int :: {vs[a], vs[b]} 0 <= a && b == a + 1 && b < vn ==> vs[a].right == vs[b]) && (forall a int, b int :: {vs[a], vs[b]} 0 <= a && a < b && b < vn ==> inD(vs[a].right, vs[b]))
+//@   at before "cur = C": ghost vs[vn] = C
+//@   at before "cur = C": ghost vn = vn + 1
+//@   loop 1: invariant [C01] spine: cur != stub ==> forall y *node[T] :: {y in D0} y in D0 && !inD(cur.right, y) && y != cur ==> inD(y.right, cur)
+//@   at after "L := C.left": assert [C01] C in D0 && L in D0 && L != C && L in C.desc && !(C in L.desc) && (cur != stub ==> C in cur.desc && C != cur && L != cur)
+//@   at after "L := C.left": assert [C01] forall y *node[T] :: {y in D0} y in D0 && inD(cur.right, y) && y != C ==> y.left != C && y.right != C
+//@   at after "L := C.left": assert [C01] forall y *node[T] :: {y in D0} y in D0 && (y.left == C || y.right == C) ==> y == cur
+//@   at after "L := C.left": assert [C01] forall y *node[T] :: {y in D0} y in D0 && (y.left == L || y.right == L) ==> y == C
+//@   at after "L := C.left": ghost ck = C.keys
+//@   at after "L := C.left": ghost cd = C.desc
+//@   at after "L := C.left": ghost cc = C.cnt
+//@   at after "L := C.left": ghost cr = C.rep
+//@   at after "cur.right = L": ghost C.keys = lambda k int :: k == rank(cmp, C.X) || inK(C.left, k) || inK(C.right, k)
+//@   at after "cur.right = L": ghost C.desc = lambda w int :: w == C || inD(C.left, w) || inD(C.right, w)
+//@   at after "cur.right = L": ghost C.cnt = 1 + cntOf(C.left) + cntOf(C.right)
+//@   at after "cur.right = L": ghost L.keys = ck
+//@   at after "cur.right = L": ghost L.desc = cd
+//@   at after "cur.right = L": ghost L.cnt = cc
+//@   at after "cur.right = L": ghost L.rep = cr
+//@
+// rotateLeft: count left rotations along the chain hanging off n (the sentinel of vineToTree): the nodes at odd
+// positions of the chain move up, those at even positions become their left children. sp is the chain before
+// (m nodes, 2*count <= m), sq the chain after (m - count nodes): sq[k] = sp[2k+1] for k < count, sp[k+count] beyond.
+//@ func rotateLeft
+//@   ghost cmp func(T, T) int, sp imap[*node[T]], m int
+//@   ghostret sq imap[*node[T]]
+//@   requires [C01] args: n != nil && n.left == nil && count >= 0 && 2 * count <= m
+//@   requires [C01] tree: treeOK(n.right, cmp) && !inD(n.right, n)
+//@   requires [C01] chain: chainOK(n.right, sp, m)
+//@   ensures  [C01] shape: treeOK(n.right, cmp) && cntOf(n.right) == old(cntOf(n.right)) && ((n.right == nil) == old(n.right == nil)) && n.left == nil && !inD(n.right, n)
+//@   ensures  [C01] keys: forall k int :: {inK(n.right, k)} inK(n.right, k) <==> old(inK(n.right, k))
+//@   ensures  [C01] desc: forall y ref :: {inD(n.right, y)} inD(n.right, y) <==> old(inD(n.right, y))
+//@   ensures  [C01] reps: forall k int :: {n.right.rep[k]} inK(n.right, k) ==> n.right.rep[k] == old(n.right.rep[k])
+//@   ensures  [C01] chain: chainOK(n.right, sq, m - count)
+//@   ensures  [C01] values: forall y *node[T] :: {y.X} old(allocated(y)) ==> y.X == old(y.X)
+//@   ensures  [C01] frame: forall y *node[T] :: {y.left} {y.right} {y.X} {y.keys} {y.desc} {y.cnt} {y.rep} old(allocated(y)) && !old(inD(n.right, y)) && y != n ==> sameNode(y)
+//@   modifies every(n.left), every(n.right), every(n.keys), every(n.desc), every(n.cnt), every(n.rep)
+//@   at entry: ghost D0 = ite(n.right == nil, emptyset(n.desc), n.right.desc)
+//@   at entry: ghost K0 = ite(n.right == nil, emptyset(n.keys), n.right.keys)
+//@   loop 1: invariant [C01] pos: 0 <= it1 && it1 <= count && (it1 == 0 ==> next == n) && (it1 > 0 ==> next == sp[2 * it1 - 1]) && next != nil && (2 * it1 < m ==> next.right == sp[2 * it1]) && (2 * it1 == m ==> next.right == nil)
+//@   loop 1: invariant [C01] stub: n != nil && n.left == nil && !(n in D0) && (next == n || next in D0) && old(allocated(n))
+//@   loop 1: invariant [C01] tree: treeOK(n.right, cmp) && cntOf(n.right) == old(cntOf(n.right)) && ((n.right == nil) == old(n.right == nil))
+//@   loop 1: invariant [C01] sets: (forall y ref :: {inD(n.right, y)} {y in D0} inD(n.right, y) <==> y in D0) && (forall k int :: {inK(n.right, k)} {k in K0} inK(n.right, k) <==> k in K0) && (forall k int :: {n.right.rep[k]} k in K0 ==> n.right.rep[k] == old(n.right.rep[k]))
+//@   loop 1: invariant [C01] rest: (forall k int :: {sp[k]} 2 * it1 <= k && k < m ==> sp[k] != nil && sp[k] in D0 && inD(next.right, sp[k]) && sp[k].cnt == old(sp[k].cnt)) && (forall a int, b int :: {sp[a], sp[b]} 2 * it1 <= a && b == a + 1 && b < m ==> sp[a].right == sp[b]) && (m > 0 && 2 * it1 < m ==> sp[m - 1].right == nil) && (forall a int, b int :: {sp[a], sp[b]} 2 * it1 <= a && a < b && b < m ==> inD(sp[a].right, sp[b]))
+//@   loop 1: invariant [C01] moved: (forall j int :: {sp[2 * j + 1]} 0 <= j && j < it1 ==> sp[2 * j + 1] != nil && sp[2 * j + 1] in D0 && !inD(next.right, sp[2 * j + 1]) && sp[2 * j + 1].cnt == old(sp[2 * j].cnt)) && (forall j int :: {sp[2 * j + 1]} 0 <= j && j + 1 < it1 ==> sp[2 * j + 1].right == sp[2 * j + 3]) && (it1 > 0 ==> n.right == sp[1]) && (it1 == 0 && m > 0 ==> n.right == sp[0]) && (forall j int, b int :: {sp[2 * j + 1], sp[b]} 0 <= j && j < it1 && 2 * j + 1 < b && b < m ==> inD(sp[2 * j + 1].right, sp[b]))
+//@   loop 1: invariant [C01] sealed: forall y *node[T] :: {y in D0} (y in D0 || y == n) && !inD(next.right, y) && y != next ==> !inD(next.right, y.left) && !inD(next.right, y.right)
+//@   loop 1: invariant [C01] values: forall y *node[T] :: {y.X} old(allocated(y)) ==> y.X == old(y.X)
+//@   loop 1: invariant [C01] frame: forall y *node[T] :: {y.left} {y.right} {y.X} {y.keys} {y.desc} {y.cnt} {y.rep} old(allocated(y)) && !(y in D0) && y != n ==> sameNode(y)
+//@   at after "R := C.right": assert [C01] C == sp[2 * it1] && R == sp[2 * it1 + 1] && C in D0 && R in D0 && R != C && C != next && R != next && R in C.desc && !(C in R.desc) && !inD(C.left, R) && !inD(C.left, C)
+//@   at after "R := C.right": assert [C01] forall y *node[T] :: {y in D0} (y in D0 || y == n) && (y.left == C || y.right == C) ==> y == next
+//@   at after "R := C.right": assert [C01] forall y *node[T] :: {y in D0} (y in D0 || y == n) && (y.left == R || y.right == R) ==> y == C
+//@   at after "R := C.right": ghost ck = C.keys
+//@   at after "R := C.right": ghost cd = C.desc
+//@   at after "R := C.right": ghost cc = C.cnt
+//@   at after "R := C.right": ghost cr = C.rep
+//@   at after "next.right = R": ghost C.keys = lambda k int :: k == rank(cmp, C.X) || inK(C.left, k) || inK(C.right, k)
+//@   at after "next.right = R": ghost C.desc = lambda w int :: w == C || inD(C.left, w) || inD(C.right, w)
+//@   at after "next.right = R": ghost C.cnt = 1 + cntOf(C.left) + cntOf(C.right)
+//@   at after "next.right = R": ghost R.keys = ck
+//@   at after "next.right = R": ghost R.desc = cd
+//@   at after "next.right = R": ghost R.cnt = cc
+//@   at after "next.right = R": ghost R.rep = cr
+//@   at exit: ghost sq = lambda k int :: ite(k < count, sp[2 * k + 1], sp[k + count])
+//@
+// vineToTree: the chain of count nodes is folded by rounds of left rotations (first count - step, step + 1 the largest
+// power of two not above count + 1, then half as many each round). What is proved: every rotateLeft call gets a chain
+// at least twice as long as its count (so no nil link is followed), and the result is a well-formed tree of the same
+// nodes, keys and representatives. That the result is balanced is C02 (not applicable), not C01.
+//@ func vineToTree
+//@   ghost cmp func(T, T) int, sp imap[*node[T]]
+//@   requires [C01] tree: treeOK(n, cmp) && chainOK(n, sp, count)
+//@   ensures  [C01] shape: ((n == nil) == (result == nil)) && treeOK(result, cmp) && cntOf(result) == old(cntOf(n))
+//@   ensures  [C01] keys: forall k int :: {inK(result, k)} inK(result, k) <==> old(inK(n, k))
+//@   ensures  [C01] desc: forall y ref :: {inD(result, y)} inD(result, y) <==> old(inD(n, y))
+//@   ensures  [C01] reps: forall k int :: {result.rep[k]} inK(result, k) ==> result.rep[k] == old(n.rep[k])
+//@   ensures  [C01] values: forall y *node[T] :: {y.X} old(allocated(y)) ==> y.X == old(y.X)
+//@   ensures  [C01] frame: forall y *node[T] :: {y.left} {y.right} {y.X} {y.keys} {y.desc} {y.cnt} {y.rep} old(allocated(y)) && !old(inD(n, y)) ==> sameNode(y)
+//@   modifies every(n.left), every(n.right), every(n.keys), every(n.desc), every(n.cnt), every(n.rep)
+//@   at entry: ghost h = 0
+//@   at entry: ghost D0 = ite(n == nil, emptyset(n.desc), n.desc)
+//@   at entry: ghost K0 = ite(n == nil, emptyset(n.keys), n.keys)
+//@   loop 1: invariant [C01] odd: step == 2 * h + 1 && 0 <= h && h <= count
+//@   at before "step = (2 * step) + 1": ghost h = step
+//@   call rotateLeft#1: cmp = cmp, sp = sp, m = count
+//@   at after "rotateLeft(stub, count-step)": ghost cs = rotateLeft_sq
+//@   at after "rotateLeft(stub, count-step)": ghost cm = step
+//@   call rotateLeft#2: cmp = cmp, sp = cs, m = cm
+//@   at after "rotateLeft(stub, left)": ghost cm = cm - left
+//@   at after "rotateLeft(stub, left)": ghost cs = rotateLeft_sq
+//@   loop 2: invariant [C01] stub: stub != nil && fresh(stub) && stub.left == nil && !(stub in D0) && !inD(stub.right, stub)
+//@   loop 2: invariant [C01] tree: treeOK(stub.right, cmp) && cntOf(stub.right) == old(cntOf(n)) && ((n == nil) == (stub.right == nil))
+//@   loop 2: invariant [C01] sets: (forall y ref :: {inD(stub.right, y)} {y in D0} inD(stub.right, y) <==> y in D0) && (forall k int :: {inK(stub.right, k)} {k in K0} inK(stub.right, k) <==> k in K0) && (forall k int :: {stub.right.rep[k]} k in K0 ==> stub.right.rep[k] == old(n.rep[k]))
+//@   loop 2: invariant [C01] chain: chainOK(stub.right, cs, cm) && 0 <= left && left <= cm
+//@   loop 2: invariant [C01] values: forall y *node[T] :: {y.X} old(allocated(y)) ==> y.X == old(y.X)
+//@   loop 2: invariant [C01] frame: forall y *node[T] :: {y.left} {y.right} {y.X} {y.keys} {y.desc} {y.cnt} {y.rep} old(allocated(y)) && !(y in D0) ==> sameNode(y)
+//@
+// rewrite (treeToVine + vineToTree) rebuilds a subtree in place: same nodes, same keys and representatives, again a
+// search tree; nothing outside the subtree is touched.
 //@ func rewrite
 //@   ghost cmp func(T, T) int
-//@   requires treeOK(root, cmp)
-//@   requires count: size == cntOf(root)
-//@   ensures [assumed] shape: (root == nil <==> result == nil) && treeOK(result, cmp) && cntOf(result) == old(cntOf(root))
-//@   ensures [assumed] keys: forall k int :: {inK(result, k)} inK(result, k) <==> old(inK(root, k))
-//@   ensures [assumed] desc: forall y ref :: {inD(result, y)} inD(result, y) <==> old(inD(root, y))
-//@   ensures [assumed] reps: forall k int :: {result.rep[k]} inK(result, k) ==> result.rep[k] == old(root.rep[k])
-//@   ensures [assumed] frame: forall y *node[T] :: {y.left} {y.right} {y.X} {y.keys} {y.desc} {y.cnt} {y.rep} old(allocated(y)) && !old(inD(root, y)) ==> sameNode(y)
+//@   requires [C01] treeOK(root, cmp)
+//@   requires [C01] count: size == cntOf(root)
+//@   ensures [C01,C04] shape: (root == nil <==> result == nil) && treeOK(result, cmp) && cntOf(result) == old(cntOf(root))
+//@   ensures [C01,C04] keys: forall k int :: {inK(result, k)} inK(result, k) <==> old(inK(root, k))
+//@   ensures [C01,C04] desc: forall y ref :: {inD(result, y)} inD(result, y) <==> old(inD(root, y))
+//@   ensures [C01,C04] reps: forall k int :: {result.rep[k]} inK(result, k) ==> result.rep[k] == old(root.rep[k])
+//@   ensures [C01,C04] frame: forall y *node[T] :: {y.left} {y.right} {y.X} {y.keys} {y.desc} {y.cnt} {y.rep} old(allocated(y)) && !old(inD(root, y)) ==> sameNode(y)
 //@   modifies every(root.left), every(root.right), every(root.keys), every(root.desc), every(root.cnt), every(root.rep)
+//@   call treeToVine#1: cmp = cmp
+//@   call vineToTree#1: cmp = cmp, sp = treeToVine_vs
 //@
 //@ func (*Tree).insert
 //@   ghostret nw *node[T]
@@ -201,7 +334,7 @@ package stree
 //@   requires root != nil && root.right != nil && treeOK(root, cmp)
 //@   ensures [C01,C04] goat: result != nil && old(result in root.right.desc) && result != root && result.left == nil && result.right == nil && result.X == old(result.X) && result.X == old(root.right.rep[rank(cmp, result.X)])
 //@   ensures [C01,C04] least: old(rank(cmp, result.X) in root.right.keys) && forall k int :: {old(k in root.right.keys)} old(k in root.right.keys) ==> rank(cmp, result.X) <= k
-//@   ensures [C01,C04] [assumed] shape: treeOK(root.right, cmp)
+//@   ensures [C01,C04] shape: treeOK(root.right, cmp)
 //@   ensures [C01,C04] keys: forall k int :: {inK(root.right, k)} inK(root.right, k) <==> old(k in root.right.keys) && k != rank(cmp, result.X)
 //@   ensures [C01,C04] desc: forall y ref :: {inD(root.right, y)} inD(root.right, y) <==> old(y in root.right.desc) && y != result
 //@   ensures [C01,C04] reps: forall k int :: {root.right.rep[k]} inK(root.right, k) ==> root.right.rep[k] == old(root.right.rep[k])
@@ -212,8 +345,12 @@ package stree
 //@   at entry: ghost K0 = root.right.keys
 //@   loop 1: invariant [C01,C04] spine: goat != nil && goat in D0 && (par == root ==> goat == root.right) && (par != root ==> par in D0 && par.left == goat && par != goat)
 //@   loop 1: invariant [C01,C04] least: forall k int :: {k in K0} k in K0 ==> k in goat.keys || k > rank(cmp, goat.X)
+//@   loop 1: invariant [C01,C04] elsewhere: forall z *node[T], k int :: {z in D0, k in goat.keys} z in D0 && !(z in goat.desc) && !(goat in z.desc) && k in goat.keys ==> !(k in z.keys)
+//@   loop 1: invariant [C01,C04] sealed: forall y *node[T] :: {y in D0} (y in D0 || y == root) && !(y in goat.desc) && y != par ==> !inD(goat, y.left) && !inD(goat, y.right)
 //@   loop 1: decreases cntOf(goat)
 //@   at loop 1 exit: ghost gk = rank(cmp, goat.X)
+//@   at loop 1 exit: assert [C01,C04] forall y *node[T] :: {y in D0} (y in D0 || y == root) && (y.left == goat || y.right == goat) ==> y == par
+//@   at loop 1 exit: assert [C01,C04] forall z *node[T] :: {z in D0} z in D0 && z != goat && !(goat in z.desc) ==> !(gk in z.keys)
 //@   at loop 1 exit: assert [C01,C04] forall k int :: {k in K0} k in K0 ==> k >= gk
 //@   at loop 1 exit: assert [C01,C04] forall y *node[T] :: {y in D0} y in D0 && goat in y.desc && y != goat ==> gk in y.keys && gk < rank(cmp, y.X)
 //@   at loop 1 exit: assert [C01,C04] forall y *node[T] :: {y in D0} y in D0 && goat in y.desc && y != goat ==> y.left != nil && goat in y.left.desc && !(inK(y.right, gk)) && !(inD(y.right, goat))
